@@ -161,6 +161,9 @@ func (r *FnRun) execCallCommon(st *State, cc *ssa.CallCommon, dst *ssa.Call, pos
 		if c.External {
 			r.e.usedExt[callee.String()] = true
 		}
+		if c.Trusted {
+			r.e.usedExt["in-repo function with a TRUSTED (not yet verified) contract: "+callee.String()] = true
+		}
 		var names []string
 		for _, p := range callee.Params {
 			names = append(names, p.Name())
